@@ -7,7 +7,7 @@ from inscripta.biocantor.gene.cds import CDSInterval
 from inscripta.biocantor.gene.cds_frame import CDSFrame
 from inscripta.biocantor.gene.codon import TranslationTable
 
-from harness.cdsmodel import codon_strings, consistent_frames, ref_codon_positions, ref_translate
+from harness.cdsmodel import codon_strings, consistent_frames, ref_codon_positions, ref_translate, START_CODONS, std_table
 from harness.common import AND, MINUS, NOT, OR, PLUS, EmptyLocation, chrom_parent, make_location, sname
 from vlib.obl import Obl
 from vlib.sym import concretize, untraced
@@ -248,6 +248,73 @@ def sequence_legs(lens, strand):
     return fn
 
 
+AMB_GENOME = "ATGAAATAACCNGGGTTTNTGTAGRAYATGTGACCCNNNAAATAA"  # NT_EXTENDED: stops followed by ambiguous codons, ambiguous codons before stops, an ambiguous start
+IUPAC_EXP = {"A": "A", "C": "C", "G": "G", "T": "T", "R": "AG", "Y": "CT", "S": "CG", "W": "AT", "K": "GT", "M": "AC", "B": "CGT", "D": "AGT", "H": "ACT", "V": "ACG",
+             "N": "ACGT"}
+
+
+def _ref_translate_amb(cstrs, table, truncate, strict):
+    """reference for sequences with ambiguity codes: the translation walks the codons 5'->3' and STOPS looking at the first in-frame stop when truncating;
+    returns the protein or the string 'ValueError' (strict translation meeting a non-strict codon before the walk ends)"""
+    t = std_table()
+    out = []
+    for i, c in enumerate(cstrs):
+        strict_codon = all(ch in "ACGT" for ch in c)
+        if i == 0 and c in START_CODONS[table]:
+            out.append("M")
+        else:
+            if strict and not strict_codon:
+                return "ValueError"
+            if strict_codon:
+                out.append(t[c])
+            else:
+                # the library's extended table knows some, not all, ambiguous codons with a unique translation: X or that amino acid
+                aas = {t["".join(x)] for x in itertools.product(*[IUPAC_EXP[ch] for ch in c])}
+                out.append("X" + (aas.pop() if len(aas) == 1 else ""))
+        if truncate and strict_codon and t[c] == "*" and i != len(cstrs) - 1:
+            break
+    return out
+
+
+def _matches(got, ref):
+    if ref == "ValueError" or got == "ValueError":
+        return got == ref
+    return len(got) == len(ref) and all(g in r for g, r in zip(got, ref))
+
+
+def ambiguous_translation(strand):
+    def fn(s, n):
+        s, n = concretize(s, n)
+        with untraced():
+            from inscripta.biocantor.location.location_impl import SingleInterval
+            from inscripta.biocantor.parent import Parent, SequenceType
+            from inscripta.biocantor.sequence import Alphabet, Sequence
+
+            genome = AMB_GENOME if strand is PLUS else "".join({"A": "T", "C": "G", "G": "C", "T": "A", "N": "N", "R": "Y", "Y": "R"}[c] for c in reversed(AMB_GENOME))
+            par = Parent(sequence=Sequence(genome, Alphabet.NT_EXTENDED, type=SequenceType.CHROMOSOME, id="chrA"), location=SingleInterval(0, len(genome), PLUS))
+            if strand is PLUS:
+                a, b = s, s + 3 * n
+            else:
+                a, b = len(genome) - s - 3 * n, len(genome) - s
+            if a < 0 or b > len(genome):
+                return True
+            cds = CDSInterval([a], [b], strand, [CDSFrame.ZERO], parent_or_seq_chunk_parent=par, guid=9)
+            cstr = [AMB_GENOME[s + 3 * i: s + 3 * i + 3] for i in range(n)]
+            for table, tt in ((0, TranslationTable.DEFAULT), (1, TranslationTable.STANDARD), (11, TranslationTable.PROKARYOTE)):
+                for trunc in (False, True):
+                    for strict in (True, False):
+                        try:
+                            got = str(cds.translate(truncate_at_in_frame_stop=trunc, translation_table=tt, strict=strict))
+                        except ValueError:
+                            got = "ValueError"
+                        if not _matches(got, _ref_translate_amb(cstr, table, trunc, strict)):
+                            return False
+            # scan_codons and the sequence itself spell the codons
+            return [str(c) for c in cds.scan_codons()] == cstr and str(cds.extract_sequence()) == "".join(cstr)
+
+    return fn
+
+
 def _params(k, extra=None, frames=True):
     p = {"s0": int}
     for i in range(1, k):
@@ -351,6 +418,12 @@ def obligations(tier):
                             "returned list): every result equals the one-frame model and earlier results are not changed retroactively",
                        bounds="%d (lengths, offset) configurations, every ordered pair%s x 4 edit choices (realised, real memoisation)" % (ncfg, " with (i+2j) % 3 == 0, 2 edit choices" if quick else ""),
                        examples=[dict(i=1, j=1, edit=0), dict(i=4, j=10, edit=2)]))
+        out.append(Obl("translate_ambiguous_%s" % sn, ambiguous_translation(strand), dict(s=int, n=int),
+                       lambda s, n: 0 <= s and s <= 30 and 1 <= n and n <= 14, budget=600, cost=40,
+                       desc="translation of CDSs on a genome with ambiguity codes (stops followed by ambiguous codons, ambiguous codons before stops): 3 tables x "
+                            "truncate x strict each give the walk-until-stop model's protein or its refusal - a truncated translation never looks past the first "
+                            "in-frame stop; scan_codons and extract_sequence spell the codons", bounds="every window of 1..14 codons at offsets 0..30 of a 44-nt NT_EXTENDED genome",
+                       examples=[dict(s=0, n=6), dict(s=0, n=3), dict(s=9, n=4)]))
         # sequence legs: small realised offsets on a concrete 40-nt genome
         sshapes = [(6,), (7,), (3, 3), (4, 5), (2, 4), (5, 1)] if quick else \
             [(n,) for n in range(3, 10)] + list(itertools.product((1, 2, 3, 4, 5), repeat=2)) + [(3, 3, 3), (4, 2, 3), (2, 2, 2), (1, 4, 4)]
